@@ -205,6 +205,15 @@ Candidates(K, i) ==
             j \in 2..n, ek \in AdvExtKeys}
      ELSE {})
     \cup
+    (IF "Resplit" \in Mutations THEN
+       \* v0 only: cut the payload at a chunk boundary and present the tail as the "external signature" of a
+       \* key of the adversary's choice - the signed bytes of the block are unchanged
+       {<<SetBlock(t, j, [t.blocks[j] EXCEPT !.payload = Split[@][1],
+                                              !.ext = <<[key |-> k, sig |-> RawSig(Split[t.blocks[j].payload][2])]>>]),
+          Mut("Resplit", i, j, 0, k.id)>> :
+            j \in {x \in 2..n : t.blocks[x].payload \in DOMAIN Split /\ t.blocks[x].ext = <<>>}, k \in AdvExtKeys \cup PubKeys(K)}
+     ELSE {})
+    \cup
     (IF "Proof" \in Mutations THEN
        {<<[t EXCEPT !.proof = pr], Mut("SetProof", i, 0, 0, pr.kind)>> : pr \in ProofPool(K)}
        \cup {<<[t EXCEPT !.rkid = 1 - @], Mut("SetRootKeyId", i, 0, 0, "rkid")>>}
@@ -307,6 +316,18 @@ Weakness ==
 
 SoundModuloKnown == Weakness # "UNEXPLAINED"
 
+\* the deprecated entry points: acceptance in each mode
+AcceptedIn(mode) == phase = "done" /\ forged.root # NoKey /\ VerifyMode(forged.tok, forged.root, mode)
+ModesAgreeOnStd == (phase = "done" /\ forged.root # NoKey) => StdIsVerify(forged.tok, forged.root)
+\* without blocks in the deprecated third-party layout (the current API cannot produce them) the three
+\* modes accept exactly the same tokens: in particular a payload tail presented as an external
+\* signature (Resplit) is accepted by none of them
+ModesCoincide ==
+    phase = "done" => (AcceptedIn("legacy") = AcceptedIn("std") /\ AcceptedIn("mixed") = AcceptedIn("std"))
+SoundInEveryMode ==
+    \A m \in Modes : (AcceptedIn(m) /\ Weakness = "none") => Authentic(forged.tok, forged.root, forged.known)
+
+
 \* C15 / C01 strict form: an accepted token whose blocks equal a known token's blocks
 \* up to signature encodings presents the same revocation identifiers
 NonMalleable ==
@@ -357,6 +378,7 @@ ExportForged ==
     (ExportOn /\ phase = "done" /\ (Accepted \/ SampleN = 1 \/ RandomElement(1..SampleN) = 1)) =>
         PrintT(<<"FORGED", ToJson([log |-> log, forged |-> forged,
                                    accept |-> (forged.root # NoKey /\ Verify(forged.tok, forged.root)),
+                                   accept_legacy |-> AcceptedIn("legacy"), accept_mixed |-> AcceptedIn("mixed"),
                                    authentic |-> Authentic(forged.tok, forged.root, forged.known),
                                    weakness |-> Weakness])>>)
 
@@ -367,6 +389,9 @@ ExportHonest ==
 
 \* ---- constant definitions for the .cfg files
 PV == [P1 |-> 3, P2 |-> 3, P6 |-> 6, T1 |-> 5]
+PVSplit == [P1 |-> 3, P12 |-> 3, T1 |-> 5]
+FPSplit == {"P1", "P12"}
+ModeMutations == {"Resplit", "SetExt", "SetVer", "Identity", "Forge", "Splice"}
 FP == {"P1", "P6"}
 FP1 == {"P1"}
 FP3 == {"P1", "P2", "P6"}
